@@ -35,8 +35,8 @@ impl DrawTable {
     pub fn is_threefold_repetition(&mut self, board: &BoardState) -> bool {
         let board_count = *self.table.get(&board.zobrist_key).unwrap_or(&0);
 
-        if board_count == 2 {
-            // this position has been seen twice before, so making the move again would be a draw
+        if board_count >= 2 {
+            // this position has been seen at least twice before, so making the move again would be a draw
             return true;
         }
 
